@@ -198,16 +198,64 @@ func TestC08(t *testing.T) {
 		for i := 0; i < k; i++ {
 			toks = append(toks, c08Tokens[rapid.IntRange(0, len(c08Tokens)-1).Draw(rt, "tok")])
 		}
-		raw := c08Spell(rt, toks)
+		// a list that repeats one code as often as its category has codes (and may add a
+		// second one): repeated entries are entries, not further codes
+		if rapid.IntRange(0, 9).Draw(rt, "repeatedCode") < 2 {
+			cats := map[string][]string{"IMM": {"IMM01", "IMM02", "IMM03", "IMM04"}, "CTOR": {"CTOR01", "CTOR02", "CTOR03"}, "TONL": {"TONL01", "TONL02", "TONL03"}, "PKGO": {"PKGO01", "PKGO02", "PKGO03"}, "IMPL": {"IMPL01", "IMPL02", "IMPL03"}}
+			cat := rapid.SampledFrom([]string{"IMM", "CTOR", "TONL", "PKGO", "IMPL"}).Draw(rt, "repCat")
+			codes := cats[cat]
+			one := codes[rapid.IntRange(0, len(codes)-1).Draw(rt, "repCode")]
+			toks = nil
+			for i, n := 0, len(codes)+rapid.IntRange(-1, 1).Draw(rt, "repExtra"); i < n; i++ {
+				toks = append(toks, one)
+			}
+			if rapid.Bool().Draw(rt, "repSecond") {
+				toks = append(toks, codes[rapid.IntRange(0, len(codes)-1).Draw(rt, "repCode2")])
+			}
+			ev.Class(id, "list repeating one code")
+		}
 		useProbe := rapid.IntRange(0, 3).Draw(rt, "useProbe") == 0
-		c := c08Case{Pkgs: pkgs, Sources: src, Raw: raw, Via: "parser"}
+		var src2 map[string]string
+		var pkgs2 []string
 		if !useProbe {
 			p := proggen.Gen(rt, proggen.GenOpts{Focus: "all", MinPkgs: 1, MaxPkgs: 3, Rich: true})
 			// project-wide exclusion must not depend on the @ignore comments a package happens to contain
 			if nodes := p.Nodes(); len(nodes) > 0 && rapid.Bool().Draw(rt, "withIgnoreComments") {
-				for i, n := 0, rapid.IntRange(1, 2).Draw(rt, "nIgnore"); i < n; i++ {
+				// aim some comments at reported statements and name two codes: the code reported
+				// there and another one, which the exclusion list is then made to contain
+				var hot []proggen.NodeRef
+				hotCode := map[*proggen.Node]string{}
+				if pre, _, err := engine.RunInproc(p.ToEngine(), engine.DefaultConfig(), engine.Options{Sequential: true}); err == nil {
+					bySite, _ := proggen.SiteDiags(p, pre.Diags)
+					for _, nd := range nodes {
+						for _, sid := range nd.Sites {
+							for code := range bySite[sid] {
+								hot = append(hot, nd)
+								hotCode[nd.Node] = code
+								break
+							}
+							if hotCode[nd.Node] != "" {
+								break
+							}
+						}
+					}
+				}
+				for i, n := 0, rapid.IntRange(1, 3).Draw(rt, "nIgnore"); i < n; i++ {
 					nd := nodes[rapid.IntRange(0, len(nodes)-1).Draw(rt, "ignoreNode")]
 					cm := "// @ignore " + rapid.SampledFrom([]string{"IMM03", "CTOR", "TONL01, PKGO01", "ZZZ9", "IMPL"}).Draw(rt, "ignoreCodes")
+					if len(hot) > 0 && rapid.IntRange(0, 9).Draw(rt, "aimed") < 6 {
+						nd = hot[rapid.IntRange(0, len(hot)-1).Draw(rt, "hotNode")]
+						other := rapid.SampledFrom([]string{"IMM01", "IMM", "CTOR01", "CTOR", "TONL02", "PKGO", "PKGO02", "IMPL03", "TONL"}).Draw(rt, "otherCode")
+						if rapid.Bool().Draw(rt, "otherFirst") {
+							cm = "// @ignore " + other + ", " + hotCode[nd.Node]
+						} else {
+							cm = "// @ignore " + hotCode[nd.Node] + ", " + other
+						}
+						if rapid.IntRange(0, 9).Draw(rt, "excludeOther") < 7 {
+							toks = append(toks, other)
+						}
+						ev.Class(id, "multi-code @ignore over a reported statement, one of its codes excluded project-wide")
+					}
 					if rapid.Bool().Draw(rt, "ignoreTrailing") {
 						nd.Node.Trailing = cm
 					} else {
@@ -217,7 +265,12 @@ func TestC08(t *testing.T) {
 				p.Render()
 				ev.Class(id, "program contains @ignore comments")
 			}
-			c.Pkgs, c.Sources = pkgDirs(p), p.Sources()
+			pkgs2, src2 = pkgDirs(p), p.Sources()
+		}
+		raw := c08Spell(rt, toks)
+		c := c08Case{Pkgs: pkgs, Sources: src, Raw: raw, Via: "parser"}
+		if src2 != nil {
+			c.Pkgs, c.Sources = pkgs2, src2
 		}
 		if binN < binBudget && engine.BinPath() != "" && rapid.IntRange(0, 9).Draw(rt, "viaBinary") == 0 {
 			binN++
